@@ -57,6 +57,47 @@ def find_table(table, node):
     return None
 
 
+def comp_inner_only_names(node):
+    """names that occur in this scope ONLY inside comprehension bodies (everything but the first iterable): they
+    belong to the comprehension's scope; symtable on 3.12 reports them in the enclosing function (PEP 709)"""
+    inner, outer = set(), set()
+
+    def visit(n, in_comp, top):
+        for c in ast.iter_child_nodes(n):
+            if isinstance(c, (ast.FunctionDef, ast.AsyncFunctionDef, ast.ClassDef, ast.Lambda)) and not top:
+                continue
+            if isinstance(c, (ast.ListComp, ast.SetComp, ast.DictComp, ast.GeneratorExp)):
+                first = c.generators[0].iter
+                visit_expr(first, in_comp)
+                for part in ast.iter_child_nodes(c):
+                    if part is c.generators[0]:
+                        for sub in ast.iter_child_nodes(part):
+                            if sub is not first:
+                                visit_expr(sub, True)
+                    else:
+                        visit_expr(part, True)
+                continue
+            if isinstance(c, ast.Name):
+                (inner if in_comp else outer).add(c.id)
+            visit(c, in_comp, False)
+
+    def visit_expr(e, in_comp):
+        if isinstance(e, ast.Name):
+            (inner if in_comp else outer).add(e.id)
+        holder = ast.Expr(value=e)
+        visit(holder, in_comp, False) if not isinstance(e, ast.Name) else None
+    visit(node, False, True)
+    return inner - outer
+
+
+def global_decls_below(node):
+    out = set()
+    for n in ast.walk(node):
+        if isinstance(n, ast.Global):
+            out.update(n.names)
+    return out
+
+
 def comp_target_names(node):
     """names bound only as comprehension iteration targets directly inside `node`'s scope (PEP 709 adjustment)"""
     out = set()
@@ -183,7 +224,11 @@ def main(payload):
             except Exception as e:
                 fail(f'symbols.raises:{tag}', f'scope_symbols(full=True) raised {e!r}', program=src)
                 continue
-            comp_only = comp_target_names(node)
+            comp_only = comp_target_names(node) | comp_inner_only_names(node)
+            if node is tree:
+                comp_only |= {g for g in global_decls_below(node)
+                              if not any(isinstance(x, ast.Name) and x.id == g and (x.lineno, x.col_offset, 'Name')
+                                         in ref_scope_names(node) for x in ast.walk(node))}
             st = {}
             for s in table.get_symbols():
                 st[s.get_name()] = s
@@ -208,7 +253,7 @@ def main(payload):
                 for n in adj(all_st) & adj(all_pfst):
                     s = st[n]
                     probs = []
-                    if s.is_declared_global() != (n in names('global')):
+                    if node is not tree and s.is_declared_global() != (n in names('global')):
                         probs.append('global')
                     if s.is_nonlocal() != (n in names('nonlocal')):
                         probs.append('nonlocal')
@@ -222,7 +267,8 @@ def main(payload):
                     if s.is_referenced() and n not in names('load') and not s.is_assigned():
                         probs.append('load')
                     if probs:
-                        fail(f'symbols.class:{tag}:{n}', f'name {n!r} classified differently from symtable: {probs}',
+                        cats = '+'.join(p.split()[0] for p in probs)
+                        fail(f'symbols.class:{tag}:{n}:{cats}', f'name {n!r} classified differently from symtable: {probs}',
                              program=src)
             distinct.add(('symbols', name, tag))
             if len(samples) < 2:
